@@ -55,7 +55,9 @@ class PEnv(object):
         self.undefined = _Undef(self)
         self.regions = {}             # known-finding key -> [z3 Bool]: inputs on which a recorded pony defect can show
 
-    def child(self, **kw):
+    def child(*args, **kw):
+        self = args[0]                    # (bound names may include `self`: hybrid methods)
+        if len(args) > 1: kw = dict(args[1], **kw)
         e = PEnv.__new__(PEnv)
         e.S, e._undefined, e.path, e.dialect, e.undefined = self.S, self._undefined, self.path, self.dialect, self.undefined
         e.regions = self.regions
@@ -123,7 +125,11 @@ def attr_of(env, v, name):
     if not isinstance(v, ERef): raise Unmodelled('attribute %s of a non-entity value' % name)
     info = S.ents[v.ent]
     ai = info.attrs.get(name)
-    if ai is None: raise Unmodelled('unknown attribute %s.%s' % (v.ent, name))
+    if ai is None:
+        hyb = hybrid(env, v.ent, name)
+        if hyb is not None and hyb[0] == 'property':
+            return call_hybrid(env, v, hyb[1], [])
+        raise Unmodelled('unknown attribute %s.%s' % (v.ent, name))
     if v.row is not None:
         if ai.kind == 'scalar': return v.row.cols[ai.col]
         if ai.kind == 'ref': return ERef(ai.target, pk=v.row.cols[ai.col])
@@ -156,6 +162,34 @@ def attr_of(env, v, name):
             items.append((z3.And(g, z3.Not(mynull), link), r))
         return Coll(ai.target, items)
     raise Unmodelled('attribute kind %s' % ai.kind)
+
+
+def hybrid(env, ent, name):
+    """a hybrid property / method of the entity class: ('property'|'method', FunctionDef) - pony inlines its body into the query;
+    the oracle evaluates the same source with `self` bound to the row"""
+    import inspect, textwrap
+    classes = getattr(env.S, 'classes', None)
+    if not classes or ent not in classes: return None
+    attr = None
+    for klass in classes[ent].__mro__:
+        if name in vars(klass): attr = vars(klass)[name]; break
+    if attr is None: return None
+    kind, fn = ('property', attr.fget) if isinstance(attr, property) else ('method', attr)
+    if not callable(fn) or not hasattr(fn, '__code__'): return None
+    try: tree = ast.parse(textwrap.dedent(inspect.getsource(fn)))
+    except (OSError, SyntaxError, TypeError): return None
+    fdef = tree.body[0]
+    if not isinstance(fdef, ast.FunctionDef): return None
+    return kind, fdef
+
+
+def call_hybrid(env, self_val, fdef, args):
+    body = [st for st in fdef.body if not (isinstance(st, ast.Expr) and isinstance(st.value, ast.Constant))]
+    if len(body) != 1 or not isinstance(body[0], ast.Return): raise Unmodelled('hybrid method with more than a return statement')
+    params = [a.arg for a in fdef.args.args]
+    if len(params) != 1 + len(args): raise Unmodelled('hybrid method arity')
+    e2 = env.child(dict(zip(params, [self_val] + list(args))))
+    return ev(body[0].value, e2)
 
 
 def truth(env, v):
@@ -601,6 +635,11 @@ def _call(node, env):
     if isinstance(f, ast.Attribute):
         recv = as_data(ev(f.value, env))
         m = f.attr
+        if isinstance(recv, ERef):
+            hyb = hybrid(env, recv.ent, m)
+            if hyb is not None and hyb[0] == 'method':
+                return call_hybrid(env, recv, hyb[1], [ev(a, env) for a in node.args])
+            raise Unmodelled('method %s of an entity' % m)
         if isinstance(recv, SV) and recv.sort in ('str', 'null'):
             if recv.sort == 'null': raise Unmodelled('method of None')
             env.undefined.append(recv.n)                   # Python: 'NoneType' object has no attribute ...
